@@ -58,4 +58,7 @@ def obligations(tier):
                    bounds="one granular add (any of 9 selectors) then every sequence of 3 object-level add/remove/clear/set over 3 marking ids"))
     obls.append(CH("ancestry_by_path_components", H, "ancestry", 240 if tier == "quick" else 900, functions=F[6:9] + F[-3:], stubs=[CLOCK],
                    bounds="marked selector s and queried selector t: every pair of strings <= 8 chars; inherited/descendants symbolic"))
+    # an operation on (selector, marking) pairs starts by finding what the selector addresses: the selector walk itself (C08's kernel obligations)
+    from props import C08
+    obls += [o for o in C08.obligations(tier) if o.name in ("sorted_walk_indices_and_hyphens", "selector_valid_iff_addresses", "selector_lists_symbolic")]
     return obls
